@@ -142,6 +142,7 @@ func noRepetitionPossible(g *rules.Game, depth int) bool {
 
 func cfgForTT(t *tape.Tape, p *rules.Pos) searchCfg {
 	c := drawCfg(t, p)
+	c.selMayDropAll = false // the table checks demand a move at the root; empty explorations are C03's
 	if c.depth > 4 {
 		c.depth = 4
 	}
